@@ -52,6 +52,7 @@ func TrySend[T any](ch chan<- T, v T) bool {
 	select {
 	case ch <- v:
 		hbChan(w, chanKey(ch), true)
+		w.chanEpoch++
 		return true
 	default:
 		return false
@@ -76,6 +77,7 @@ func Send[T any](ch chan<- T, v T) {
 		key := chanKey(ch)
 		o := &offer{val: v, from: w.cur}
 		w.offers[key] = append(w.offers[key], o)
+		w.chanEpoch++
 		hbChan(w, key, true)
 		Block("chan-send", func() bool { return o.taken })
 		hbChan(w, key, true)
